@@ -1255,6 +1255,15 @@ class VM:
                 arr._elements.insert(i, arg)
             return arr.length
 
+        def live_items():
+            """(index, element) for the indices that exist when the method starts;
+            elements are read live, so callbacks may modify the array."""
+            for i in range(len(arr._elements)):
+                if i < len(arr._elements):
+                    yield i, arr._elements[i]
+                else:
+                    yield i, UNDEFINED
+
         def array_elem_to_string(elem):
             # undefined and null convert to empty string in array join/toString
             if elem is UNDEFINED or elem is NULL:
@@ -1265,7 +1274,7 @@ class VM:
             return ",".join(array_elem_to_string(elem) for elem in arr._elements)
 
         def join_fn(*args):
-            sep = "," if not args else to_string(args[0])
+            sep = "," if not args or args[0] is UNDEFINED else to_string(args[0])
             return sep.join(array_elem_to_string(elem) for elem in arr._elements)
 
         def map_fn(*args):
@@ -1274,7 +1283,7 @@ class VM:
                 return JSArray()
             result = JSArray()
             result._elements = []
-            for i, elem in enumerate(arr._elements):
+            for i, elem in live_items():
                 val = vm._call_callback(callback, [elem, i, arr])
                 result._elements.append(val)
             return result
@@ -1285,7 +1294,7 @@ class VM:
                 return JSArray()
             result = JSArray()
             result._elements = []
-            for i, elem in enumerate(arr._elements):
+            for i, elem in live_items():
                 val = vm._call_callback(callback, [elem, i, arr])
                 if to_boolean(val):
                     result._elements.append(elem)
@@ -1298,7 +1307,7 @@ class VM:
                 raise JSTypeError("reduce callback is not a function")
             acc = initial
             start_idx = 0
-            if acc is UNDEFINED:
+            if len(args) < 2:
                 if not arr._elements:
                     raise JSTypeError("Reduce of empty array with no initial value")
                 acc = arr._elements[0]
@@ -1316,7 +1325,7 @@ class VM:
             acc = initial
             length = len(arr._elements)
             start_idx = length - 1
-            if acc is UNDEFINED:
+            if len(args) < 2:
                 if not arr._elements:
                     raise JSTypeError("Reduce of empty array with no initial value")
                 acc = arr._elements[length - 1]
@@ -1328,9 +1337,12 @@ class VM:
 
         def splice_fn(*args):
             start = to_integer(args[0]) if args else 0
-            delete_count = (
-                to_integer(args[1]) if len(args) > 1 else len(arr._elements) - start
-            )
+            if not args:
+                delete_count = 0
+            elif len(args) > 1:
+                delete_count = to_integer(args[1])
+            else:
+                delete_count = len(arr._elements)
             items = list(args[2:]) if len(args) > 2 else []
 
             length = len(arr._elements)
@@ -1356,7 +1368,7 @@ class VM:
             callback = args[0] if args else None
             if not callback:
                 return UNDEFINED
-            for i, elem in enumerate(arr._elements):
+            for i, elem in live_items():
                 vm._call_callback(callback, [elem, i, arr])
             return UNDEFINED
 
@@ -1384,7 +1396,7 @@ class VM:
             callback = args[0] if args else None
             if not callback:
                 return UNDEFINED
-            for i, elem in enumerate(arr._elements):
+            for i, elem in live_items():
                 val = vm._call_callback(callback, [elem, i, arr])
                 if to_boolean(val):
                     return elem
@@ -1394,7 +1406,7 @@ class VM:
             callback = args[0] if args else None
             if not callback:
                 return -1
-            for i, elem in enumerate(arr._elements):
+            for i, elem in live_items():
                 val = vm._call_callback(callback, [elem, i, arr])
                 if to_boolean(val):
                     return i
@@ -1404,7 +1416,7 @@ class VM:
             callback = args[0] if args else None
             if not callback:
                 return False
-            for i, elem in enumerate(arr._elements):
+            for i, elem in live_items():
                 val = vm._call_callback(callback, [elem, i, arr])
                 if to_boolean(val):
                     return True
@@ -1414,7 +1426,7 @@ class VM:
             callback = args[0] if args else None
             if not callback:
                 return True
-            for i, elem in enumerate(arr._elements):
+            for i, elem in live_items():
                 val = vm._call_callback(callback, [elem, i, arr])
                 if not to_boolean(val):
                     return False
@@ -1432,7 +1444,11 @@ class VM:
 
         def slice_fn(*args):
             start = to_integer(args[0]) if args else 0
-            end = to_integer(args[1]) if len(args) > 1 else len(arr._elements)
+            end = (
+                to_integer(args[1])
+                if len(args) > 1 and args[1] is not UNDEFINED
+                else len(arr._elements)
+            )
             if start < 0:
                 start = max(0, len(arr._elements) + start)
             if end < 0:
@@ -1450,8 +1466,13 @@ class VM:
             start = to_integer(args[1]) if len(args) > 1 else 0
             if start < 0:
                 start = max(0, len(arr._elements) + start)
+            search_is_nan = isinstance(search, float) and math.isnan(search)
             for i in range(start, len(arr._elements)):
-                if vm._strict_equals(arr._elements[i], search):
+                elem = arr._elements[i]
+                # SameValueZero: NaN is found
+                if search_is_nan and isinstance(elem, float) and math.isnan(elem):
+                    return True
+                if vm._strict_equals(elem, search):
                     return True
             return False
 
@@ -1483,8 +1504,9 @@ class VM:
                 ):
                     result = vm._call_callback(comparator, [a, b])
                     # Convert to integer for cmp_to_key
-                    num = to_number(result) if result is not UNDEFINED else 0
-                    return int(num) if isinstance(num, (int, float)) else 0
+                    num = to_number(result)
+                    # Only the sign matters (0.5 is "greater", NaN is "equal")
+                    return -1 if num < 0 else (1 if num > 0 else 0)
                 return default_compare(a, b)
 
             # Sort using Python's sort with custom key
@@ -2308,14 +2330,27 @@ class VM:
         if isinstance(obj, JSArray):
             # Special handling for length property
             if key_str == "length":
-                new_len = to_integer(value)
-                obj.length = new_len
+                length = to_number(value)
+                if (
+                    isinstance(length, float)
+                    and (math.isnan(length) or math.isinf(length))
+                    or int(length) != length
+                    or not 0 <= length < 2**32
+                ):
+                    raise JSRangeError("Invalid array length")
+                obj.length = int(length)
                 return
             # Strict array mode: reject non-integer indices
             # Valid indices are integer strings in range [0, 2^32-2]
             try:
                 idx = int(key_str)
                 if idx >= 0 and str(idx) == key_str:
+                    if idx > len(obj._elements):
+                        # Stricter mode: arrays have no holes
+                        raise JSTypeError(
+                            f"Cannot set index {idx} of an array of length "
+                            f"{len(obj._elements)} (arrays cannot have holes)"
+                        )
                     obj.set_index(idx, value)
                     return
             except (ValueError, IndexError):
